@@ -587,6 +587,30 @@ func (w *c07RaceWorker) opFail(h *gorm.DB) string {
 	}
 }
 
+// c07FailF32: listed finding F32.  Pattern: prepared statements on; the operation is of kind fault-badconn (the driver answers
+// driver.ErrBadConn to every execution of the index's text, for every goroutine); serially the operation returns "driver: bad
+// connection"; concurrently, with NOTHING else different in its result, it returns "sql: statement is closed": another
+// goroutine's ErrBadConn branch evicted the entry and closed the *sql.Stmt this goroutine already held a copy of.  Matching
+// results are counted and replaced by the serial ones, so everything else is still compared.
+func c07FailF32(ref, got [][]string) int {
+	n := 0
+	for g := range ref {
+		if g >= len(got) {
+			break
+		}
+		for i := range ref[g] {
+			if i >= len(got[g]) || ref[g][i] == got[g][i] || !strings.HasPrefix(ref[g][i], "fault-badconn ") {
+				continue
+			}
+			if strings.Replace(ref[g][i], "err:driver: bad connection", "err:sql: statement is closed", 1) == got[g][i] {
+				got[g][i] = ref[g][i]
+				n++
+			}
+		}
+	}
+	return n
+}
+
 // c07FailFixedProgs: fixed programs of every run — maximal contention on first use of failing texts in each way of
 // switching prepared statements on, plus the non-prepared reference shape and a read-only one on several connections
 func c07FailFixedProgs(rng *rand.Rand) []c07RaceProg {
@@ -597,6 +621,8 @@ func c07FailFixedProgs(rng *rand.Rand) []c07RaceProg {
 		{Seed: rng.Int63n(1 << 30), G: 16, Cold: true, Family: "fail", Handle: "session", Derive: "prepare", Ops: 30, Conns: 4, Only: prepKinds},
 		{Seed: rng.Int63n(1 << 30), G: 8, Cold: true, Family: "fail", Handle: "db", Prepare: rng.Intn(2) == 0, Ops: 30},
 		{Seed: rng.Int63n(1 << 30), G: 8, Cold: true, Family: "fail", Handle: "ctx", Ops: 24, Conns: 4, Only: "invalid-model,fresh-softdelete-model,hook-find,not-found,ok-find"},
+		// probe re-confirming the listed finding F32: every goroutine executes the same cached statement into driver.ErrBadConn
+		{Seed: 11 + rng.Int63n(1<<20), G: 16, Cold: false, Family: "fail", Handle: "db", Prepare: true, Ops: 40, Only: "fault-badconn"},
 	}
 }
 
